@@ -205,7 +205,9 @@ func copyToSelectedData[T any](remoteWrite bool, existingData []T, filterData *F
 				continue
 			}
 
+			previous := existingData[i]
 			CopyNonNilDataFromItemToItem(newData, &existingData[i])
+			restoreWriteCheck(remoteWrite, previous, &existingData[i])
 		}
 	}
 	return existingData, success
@@ -230,7 +232,9 @@ func copyToAllData[T any](remoteWrite bool, existingData []T, newData *T) ([]T, 
 			continue
 		}
 
+		previous := existingData[i]
 		CopyNonNilDataFromItemToItem(newData, &existingData[i])
+		restoreWriteCheck(remoteWrite, previous, &existingData[i])
 	}
 
 	return existingData, success
@@ -265,7 +269,9 @@ func deleteFilteredData[T any](remoteWrite bool, existingData []T, filterData *F
 
 			// remove the fields defined in element if the item matches
 			if filterData.SelectorMatch(util.Ptr(existingData[i])) {
+				previous := existingData[i]
 				RemoveElementFromItem(&existingData[i], filterData.Elements)
+				restoreWriteCheck(remoteWrite, previous, &existingData[i])
 				result = append(result, existingData[i])
 			} else {
 				result = append(result, existingData[i])
@@ -281,12 +287,27 @@ func deleteFilteredData[T any](remoteWrite bool, existingData []T, filterData *F
 			// only elements filter
 
 			// remove the fields defined in element
+			previous := existingData[i]
 			RemoveElementFromItem(&existingData[i], filterData.Elements)
+			restoreWriteCheck(remoteWrite, previous, &existingData[i])
 			result = append(result, existingData[i])
 		}
 	}
 
 	return result, success
+}
+
+// a remote write must not alter the field tagged "writecheck": put back the value it had before
+func restoreWriteCheck[T any](remoteWrite bool, previous T, item *T) {
+	if !remoteWrite {
+		return
+	}
+
+	pV := reflect.ValueOf(previous)
+	iV := reflect.ValueOf(item).Elem()
+	for _, fieldName := range fieldNamesWithEEBusTag(EEBusTagWriteCheck, previous) {
+		iV.FieldByName(fieldName).Set(pV.FieldByName(fieldName))
+	}
 }
 
 func isFieldValueNil(field interface{}) bool {
